@@ -16,6 +16,12 @@ func runC17(c *core.Ctx) {
 		RunNumeric(c, false)
 	case "component-failure":
 		RunComponentFailure(c)
+	case "matrix-estimators":
+		RunMatrixEstimators(c, false)
+	case "wrappers-batch":
+		RunWrappers(c)
+	case "logistic-regression":
+		RunLogisticRegression(c)
 	default:
 		panic("unknown scenario " + c.Scenario)
 	}
@@ -29,6 +35,8 @@ func runC16(c *core.Ctx) {
 		RunScalarMixture(c, true)
 	case "hmm-monotone":
 		RunVectorHmm(c, true)
+	case "matrix-em-monotone":
+		RunMatrixEstimators(c, true)
 	default:
 		panic("unknown scenario " + c.Scenario)
 	}
@@ -46,10 +54,13 @@ func init() {
 			{Name: "vector-estimators", Weight: 3},
 			{Name: "numeric-estimator", Weight: 1},
 			{Name: "component-failure", Weight: 2, Faulty: true},
+			{Name: "matrix-estimators", Weight: 3},
+			{Name: "wrappers-batch", Weight: 2},
+			{Name: "logistic-regression", Weight: 2},
 		},
 		Run:      runC17,
 		StepUnit: "scheduling decisions of the simulated pool",
-		Rule: "one run = one estimator workload (closed-form scalar estimators of 6 families with optional log-weights; scalar mixtures of normals / Poissons / categoricals under EM; HMMs with categorical or normal emissions under Baum-Welch with 1..5 records; vector estimators: multivariate normal, scalar iid / id wrappers, vector mixtures; the numeric estimator, whose objective uses the pool inside Newton / BFGS; and a fault scenario in which one component estimator fails at a logically identified call) executed once with the zero-value (sequential) pool and once with a simulated pool whose size (2..6), channel buffer (1..8), scheduler policy (uniform, spread, hog, main-only, starve, lifo) and every scheduling decision (who receives a submitted job, who runs next at AddJob / job start / job end / Wait entry / Wait poll) are drawn from the tape. Oracles: no data race under the happens-before relation of the real pool (-race build, baton hand-offs hidden, channel / WaitGroup / goroutine-creation edges declared), no deadlock, no step cap, estimates and hook-reported likelihoods equal to the sequential run within 1e-8, caller data unchanged. Non-trivial = at least two observations. Distinct = hash of the executed (executor, job) sequence.",
+		Rule: "one run = one estimator workload (closed-form scalar estimators of 6 families with optional log-weights; scalar mixtures of normals / Poissons / categoricals under EM; HMMs with categorical or normal emissions under Baum-Welch with 1..5 records; vector estimators: multivariate normal, scalar iid / id wrappers, vector mixtures; matrix estimators: vector-id, matrix mixtures under EM, matrix HMMs under Baum-Welch; translation / log-transform wrappers through Estimate and through the batch interface (Initialize, NewObservation from inside pool jobs, GetEstimate); sparse and dense logistic regression (SAGA; two schedules of one pool size must agree bit for bit); the numeric estimator, whose objective uses the pool inside Newton / BFGS; and a fault scenario in which one component estimator fails at a logically identified call) executed once with the zero-value (sequential) pool and once with a simulated pool whose size (2..6), channel buffer (1..8), scheduler policy (uniform, spread, hog, main-only, starve, lifo) and every scheduling decision (who receives a submitted job, who runs next at AddJob / job start / job end / Wait entry / Wait poll) are drawn from the tape. Oracles: no data race under the happens-before relation of the real pool (-race build, baton hand-offs hidden, channel / WaitGroup / goroutine-creation edges declared), no deadlock, no step cap, estimates and hook-reported likelihoods equal to the sequential run within 1e-8, caller data unchanged. Non-trivial = at least two observations. Distinct = hash of the executed (executor, job) sequence.",
 		Assumptions: []string{
 			"schedules are explored at job granularity; sub-job interleavings are covered by the race oracle (autodiff has no lock of its own: two concurrent job bodies either touch disjoint memory and commute, or race and are reported)",
 			"EM / Baum-Welch run a fixed number of steps with epsilon = -Inf so that a rounding flip of the convergence test cannot change the iteration count",
@@ -70,6 +81,7 @@ func init() {
 			{Name: "closed-form-optimality", Weight: 4},
 			{Name: "mixture-em-monotone", Weight: 3},
 			{Name: "hmm-monotone", Weight: 3},
+			{Name: "matrix-em-monotone", Weight: 2},
 		},
 		Run:      runC16,
 		StepUnit: "scheduling decisions of the simulated pool",
